@@ -94,7 +94,8 @@ def generic(depth=2, tags=None):
 
 PARAS = [None, '', ' ', 'Plain text', '  padded  ', '(note)', '<cue>', '(half', 'half)',
          '<half', ' (padded note) ', '()', '<>', '(', 'é中 text', 'a (b) c', '\n', 'x\ny',
-         ')(', '><', '(a)(b)', '<a> b <c>', ' ( spaced ) ', 'ends with )', '( starts']
+         ')(', '><', '(a)(b)', '<a> b <c>', ' ( spaced ) ', 'ends with )', '( starts',
+         '(mixed>', '<mixed)', '(Beat) 3 - 1 <FT>', '<GFX> see chart (left)', ' (pad> ', '<)', '(>']
 PARA_RUNS = [[]] * 6 + [[p] for p in PARAS] + [[_R.choice(PARAS), _R.choice(PARAS)] for _ in range(20)]
 
 
@@ -235,6 +236,25 @@ def distinct(pool, min_size=0, max_size=6):
     return st.lists(st.sampled_from(pool), unique=True, min_size=min_size, max_size=max_size)
 
 
+@st.composite
+def permutation(draw, seq):
+    """A permutation of seq drawn with plain integer choices (st.permutations is not
+    usable through fuzz_one_input's byte-string provider, which rejects every buffer)."""
+    seq = list(seq)
+    out = []
+    while seq:
+        out.append(seq.pop(draw(st.integers(0, len(seq) - 1)) if len(seq) > 1 else 0))
+    return out
+
+
+def pick(pool, n):
+    """n distinct entries of pool in drawn order (n is clipped to the pool size)."""
+    n = min(n, len(pool))
+    if n == 0:
+        return st.just([])
+    return st.lists(st.sampled_from(list(pool)), unique=True, min_size=n, max_size=n)
+
+
 # schema values that are prefixes / case variants of each other
 SCHEMAS = ['http://schema/1', 'http://schema/10', 'http://schema/1/sub', 'HTTP://SCHEMA/1', 'http://schema/2',
            'http://schema/']
@@ -245,7 +265,7 @@ def ro_metadata(draw, n_md):
     """n_md distinct-tag metadata children: mosExternalMetadata blocks with
     distinct mosSchema plus unique generic tags."""
     out = []
-    tags = draw(st.permutations(['roChannel', 'roEdDur', 'roTrigger', 'macroIn', 'custom']))
+    tags = draw(permutation(['roChannel', 'roEdDur', 'roTrigger', 'macroIn', 'custom']))
     off = draw(st.integers(0, len(SCHEMAS) - 1))
     for i in range(n_md):
         if draw(st.booleans()):
@@ -289,7 +309,7 @@ def running_order(draw, min_stories=0, max_stories=6, max_items=4, rich=True,
     order = None
     extras = []
     if rich and draw(st.integers(0, 2)) == 0:
-        order = draw(st.permutations(['mosID', 'ncsID', 'messageID', 'body']))
+        order = draw(permutation(['mosID', 'ncsID', 'messageID', 'body']))
         extras = draw(st.lists(generic(depth=0), max_size=1))
     root = B.envelope(rc, mid, ncs_id=draw(st.none() | st.just('NCS')), order=order, extras=extras)
     pretty = draw(st.booleans())
@@ -323,7 +343,7 @@ def id_list(draw, existing, unknown_pool, faults, min_size=1, max_size=4, degene
     """Ordered list of distinct existing IDs, optionally salted with unknown /
     blank entries (faults) or repeated entries (degenerate)."""
     k = draw(st.integers(min_size, max(min_size, min(max_size, len(existing)))))
-    ids = list(draw(st.permutations(existing)))[:k] if existing else []
+    ids = list(draw(pick(existing, k))) if existing else []
     if faults != 'none':
         nf = draw(st.sampled_from([0, 0, 1, 1, 2] if faults == 'some' else [1, 1, 2, 3]))
         for _ in range(nf):
@@ -350,6 +370,9 @@ def message(draw, state, ro_id, kinds=B.ALL_KINDS, faults='some', rich=True, mid
     used_i = {i for _, its in state for i in its}
     new_s = [x for x in NEW_S + SIMPLE_S if x not in sids]
     new_i = [x for x in NEW_I + SIMPLE_I if x not in used_i]
+    # long histories can use up the pools: always keep a few unused IDs available
+    new_s += [g for g in (f'G{n}' for n in range(len(sids) + 6)) if g not in sids][:6]
+    new_i += [g for g in (f'H{n}' for n in range(len(used_i) + 6)) if g not in used_i][:6]
 
     def sref():
         return draw(one_ref(sids, UNKNOWN_S, faults))
@@ -363,7 +386,7 @@ def message(draw, state, ro_id, kinds=B.ALL_KINDS, faults='some', rich=True, mid
 
     def new_stories(maxn=3, allow_dup=False):
         n = draw(st.integers(1, maxn))
-        ids = list(draw(st.permutations(new_s)))[:n]
+        ids = list(draw(pick(new_s, n)))
         if allow_dup and sids and dup_inserts and draw(st.integers(0, 2)) == 0:
             ids.insert(draw(st.integers(0, len(ids))), draw(st.sampled_from(sids)))
         return [draw(story(i, draw(distinct(ITEM_POOL if rich else SIMPLE_I, 0, 3)), rich=rich,
@@ -371,7 +394,7 @@ def message(draw, state, ro_id, kinds=B.ALL_KINDS, faults='some', rich=True, mid
 
     def new_items(maxn=3):
         n = draw(st.integers(1, maxn))
-        ids = list(draw(st.permutations(new_i)))[:n]
+        ids = list(draw(pick(new_i, n)))
         return [draw(item(i, rich=rich)) for i in ids]
 
     if kind == 'roStoryAppend':
